@@ -157,16 +157,20 @@ func (d *Describer) Classify(v ssa.Value) *CondInfo {
 				if v.Op == token.NEQ {
 					tr = map[string]bool{"<": true, ">": true}
 				}
+				// len(s) == 0 for a string s is s == ""
+				if a, b, ok := d.strLenVsZero(v); ok {
+					return ordAtom(a, b, tr)
+				}
 				return ordAtom(d.D(v.X), d.D(v.Y), tr)
 			}
-		case token.LSS:
-			return ordAtom(d.D(v.X), d.D(v.Y), map[string]bool{"<": true})
-		case token.LEQ:
-			return ordAtom(d.D(v.X), d.D(v.Y), map[string]bool{"<": true, "=": true})
-		case token.GTR:
-			return ordAtom(d.D(v.X), d.D(v.Y), map[string]bool{">": true})
-		case token.GEQ:
-			return ordAtom(d.D(v.X), d.D(v.Y), map[string]bool{">": true, "=": true})
+		case token.LSS, token.LEQ, token.GTR, token.GEQ:
+			tr := map[token.Token]map[string]bool{
+				token.LSS: {"<": true}, token.LEQ: {"<": true, "=": true}, token.GTR: {">": true}, token.GEQ: {">": true, "=": true},
+			}[v.Op]
+			if a, b, ok := d.strLenVsZero(v); ok {
+				return ordAtom(a, b, tr)
+			}
+			return ordAtom(d.D(v.X), d.D(v.Y), tr)
 		}
 	case *ssa.Call:
 		if f := v.Call.StaticCallee(); f != nil && len(v.Call.Args) == 2 {
@@ -655,4 +659,30 @@ func (d *Describer) Table(fn *ssa.Function, from *ssa.BasicBlock, stop map[*ssa.
 		}
 	}
 	return res, nil
+}
+
+// strLenVsZero: a comparison of len(s), s a string, with the constant 0 reads as the comparison of s with ""
+// (operands in the order written).
+func (d *Describer) strLenVsZero(v *ssa.BinOp) (string, string, bool) {
+	strLen := func(x ssa.Value) (ssa.Value, bool) {
+		c, ok := x.(*ssa.Call)
+		if !ok || len(c.Call.Args) != 1 {
+			return nil, false
+		}
+		b, ok := c.Call.Value.(*ssa.Builtin)
+		if !ok || b.Name() != "len" {
+			return nil, false
+		}
+		if bt, ok := c.Call.Args[0].Type().Underlying().(*types.Basic); !ok || bt.Info()&types.IsString == 0 {
+			return nil, false
+		}
+		return c.Call.Args[0], true
+	}
+	if s, ok := strLen(v.X); ok && isConstInt(v.Y, 0) {
+		return d.D(s), `""`, true
+	}
+	if s, ok := strLen(v.Y); ok && isConstInt(v.X, 0) {
+		return `""`, d.D(s), true
+	}
+	return "", "", false
 }
